@@ -10,8 +10,7 @@ where it raises (`assert not self.is_complex`, `NotImplementedError` of `is_comp
 
 Conventions
 * Expressions are trees; `x is y` of the hash-consed implementation is structural equality
-  (C07), with float constants canonicalised (`-0.0` is `0.0`, one NaN) because the
-  implementation's constant key identifies them.
+  (C07); NaN payloads are canonicalised (one NaN).
 * `x.key > y.key` is the parameter `Cfg.ord` (`none` = the comparison raises `TypeError`).
 * The three relational tables are the parameter `Cfg.T` (regenerated from the module on every
   run, `Generated/C04Tables.lean`).
@@ -141,9 +140,10 @@ def extOfBits (f : Fmt) (b : Nat) : ExtQ :=
   | .inf s => if s then .ninf else .pinf
   | .fin s m e => .fin ((if s then -1 else 1) * (m : Rat) * pow2 e)
 
-/-- the implementation's constant key identifies `0.0`/`-0.0`; one NaN in the model -/
+/-- one NaN in the model (the implementation's constant key keeps the sign of zero:
+`(value, type(value).__name__, str(value))`) -/
 def canonBits (f : Fmt) (b : Nat) : Nat :=
-  if isNaNBits f b then f.nanBits else if b = f.signBit then 0 else b
+  if isNaNBits f b then f.nanBits else b
 
 /-- float constant; bit patterns are canonicalised when the constant node is made (`canonVal`) -/
 def mkFlt (t : FTag) (b : Nat) : CVal := .flt t b
@@ -872,6 +872,8 @@ def foldMinMax (cfg : Cfg) (isMin : Bool) (x y : Expr) : M (Option Expr) :=
       | some a, some b => do
         let r ← if isMin then pyMin a b else pyMax a b
         guardSameType cfg xl yl
+        guardRep cfg xv
+        guardRep cfg yv
         -- strict: the comparison inside Python's min/max must be the comparison of the exact values
         failIf (cfg.strict && r != (if isMin then (if Rel.lt.onExt b.ext a.ext then b else a)
                                      else (if Rel.gt.onExt b.ext a.ext then b else a)))
@@ -943,58 +945,58 @@ def rNegative (cfg : Cfg) (x : Expr) : M (Option Expr) :=
   | .un .negative a => pure (some a)
   | _ => pure none
 
-/-- the rule `constant`: bring the value to the dtype of `like` -/
-def rConstant (cfg : Cfg) (v : CVal) (like : Expr) : M (Option Expr) := do
+/-- the value the rule `constant` gives the node (`none`: the rule does not fire): bring the
+value to the dtype of `like` -/
+def constantVal (v : CVal) (like : Expr) : M (Option CVal) := do
   let typ ← getType like
-  let byBits : M (Option (Option Expr)) :=
-    if (typ.kind == .float || typ.kind == .complex) && typ.bits.isSome then do
-      match (← asDtype typ) with
-      | none => pure (some none)
-      | some d =>
-        if v.isNumber then
-          if isInstanceDT v d then pure (some none)
-          else do
-            failIf (cfg.strict && (match d with | .cx _ => true | .fl _ => false)) (.inexact "complex constant")
-            let nv ← castDT d v
-            failIf (cfg.strict && !(nv.ext? == v.ext? && v.ext? != some .nan && v.ext?.isSome)) (.inexact "cast")
-            return some (some (← mkConst cfg nv like))
-        else match v with
-          | .name s =>
-            match d with
-            | .fl t =>
-              match namedBits t s with
-              | some b => do
-                failIf (cfg.strict && cfg.work != some t) (.inexact "named constant outside the working dtype")
-                return some (some (← mkConst cfg (mkFlt t b) like))
-              | none => pure (some none)
-            | .cx _ => if (namedBits .f64 s).isSome then throw (.unsupported "named complex constant") else pure (some none)
-          | _ => pure (some none)
-    else pure none
-  match (← byBits) with
-  | some r => pure r
-  | none =>
-    if typ.kind == .float && typ.bits.isNone then
-      -- `not isinstance(value, float) and isinstance(value, number_types)` → `float(value)`
-      match v with
-      | .flt .py _ | .flt .f64 _ => pure none
-      | .cplx .. => throw .typeError
-      | _ =>
-        match v.pnum? with
-        | some p => do
-          let b ← p.castTo .py
-          guardExact cfg "float()" (extOfBits binary64 b) p.ext.rat?
-          return some (← mkConst cfg (mkFlt .py b) like)
-        | none => pure none
-    else if typ.kind == .complex && typ.bits.isNone then
-      if cfg.strict then throw (.inexact "complex constant") else
-      match v with
-      | .cplx .py _ _ => pure none
-      | .cplx .f64 _ _ => pure none   -- numpy.complex128 is a Python complex
-      | .cplx s re im => pure (some (← mkConst cfg (.cplx .py (convert s.fmt binary64 re) (convert s.fmt binary64 im)) like))
-      | _ => match v.pnum? with
-        | some p => do return some (← mkConst cfg (.cplx .py (← p.castTo .py) 0) like)
-        | none => pure none
-    else pure none
+  if (typ.kind == .float || typ.kind == .complex) && typ.bits.isSome then
+    match (← asDtype typ) with
+    | none => pure none
+    | some d =>
+      if v.isNumber then
+        if isInstanceDT v d then pure none
+        else do return some (← castDT d v)
+      else match v with
+        | .name s =>
+          match d with
+          | .fl t => pure ((namedBits t s).map (mkFlt t))
+          | .cx _ => if (namedBits .f64 s).isSome then throw (.unsupported "named complex constant") else pure none
+        | _ => pure none
+  else if typ.kind == .float && typ.bits.isNone then
+    -- `not isinstance(value, float) and isinstance(value, number_types)` → `float(value)`
+    match v with
+    | .flt .py _ | .flt .f64 _ => pure none
+    | .cplx .. => throw .typeError
+    | _ =>
+      match v.pnum? with
+      | some p => do return some (mkFlt .py (← p.castTo .py))
+      | none => pure none
+  else if typ.kind == .complex && typ.bits.isNone then
+    match v with
+    | .cplx .py _ _ => pure none
+    | .cplx .f64 _ _ => pure none   -- numpy.complex128 is a Python complex
+    | .cplx s re im => pure (some (.cplx .py (convert s.fmt binary64 re) (convert s.fmt binary64 im)))
+    | _ => match v.pnum? with
+      | some p => do return some (.cplx .py (← p.castTo .py) 0)
+      | none => pure none
+  else pure none
+
+/-- strict-mode check of the rule `constant`: the new value denotes the same number (a named
+constant: it is the constant's value in the working dtype) -/
+def constSame (cfg : Cfg) (v nv : CVal) : Bool :=
+  match v with
+  | .name s => match cfg.work with
+    | some t => (namedBits t s).map (mkFlt t) == some nv
+    | none => false
+  | _ => v.isReal && nv.isReal && nv.ext? == v.ext? && v.ext? != some .nan
+
+/-- the rule `constant` -/
+def rConstant (cfg : Cfg) (v : CVal) (like : Expr) : M (Option Expr) := do
+  match (← constantVal v like) with
+  | some nv => do
+    failIf (cfg.strict && !constSame cfg v nv) (.inexact "constant cast")
+    return some (← mkConst cfg nv like)
+  | none => pure none
 
 def rUpcast (cfg : Cfg) (x : Expr) : M (Option Expr) :=
   match x with
@@ -1165,9 +1167,8 @@ def compareFold (cfg : Cfg) (r : Rel) (x y : Expr) : M (Option Bool) :=
           failIf (cfg.strict && res != r.onExt a.ext b.ext) (.inexact "comparison after promotion")
           return some res
         | _, _ =>
-          match r with
-          | .eq | .ne => throw (.unsupported "complex ==")
-          | _ => throw .typeError
+          -- Python complex: `TypeError`; NumPy complex scalars compare lexicographically: outside the model
+          throw (.unsupported "comparison of complex constants")
       else pure none
   | .const xv _, _ =>
     if xv.isNumber then scanConstAny cfg (keyOf xv) y r.index propsList else pure none
@@ -1233,21 +1234,15 @@ def rSelect (cfg : Cfg) (cond x y : Expr) : M (Option Expr) :=
       | .bin .gt a b => pure (some (.select (.bin .le a b) y x))
       | _ => selectNested cfg cond x y
 
-/-- `_eval(like, "sqrt"|"square", value)` -/
-def evalFn (cfg : Cfg) (isSqrt : Bool) (like : Expr) (p : PNum) : M (Option Expr) := do
+/-- the value computed by `_eval(like, "sqrt"|"square", value)` (`none`: `_eval` returns `None`) -/
+def evalVal (isSqrt : Bool) (like : Expr) (p : PNum) : M (Option CVal) := do
   let typ ← getType like
-  guardRep cfg p.toCVal
-  let viaDtype : M (Option (Option Expr)) :=
+  let viaDtype : M (Option (Option CVal)) :=
     if typ.bits.isSome && typ.kind != .other then do
       match (← asDtype typ) with
       | some (.fl t) => do
         let a ← p.castTo t
-        let r := if isSqrt then FP.sqrt t.fmt a else FP.mul t.fmt a a
-        let re := extOfBits t.fmt r
-        failIf (cfg.strict && !(match p.ext, re with
-          | .fin q, .fin s => if isSqrt then (s * s == q && decide (s ≥ 0)) else s == q * q
-          | _, _ => false)) (.inexact "eval")
-        return some (some (← mkConst cfg (mkFlt t r) like))
+        return some (some (mkFlt t (if isSqrt then FP.sqrt t.fmt a else FP.mul t.fmt a a)))
       | some (.cx _) => throw (.unsupported "complex eval")
       | none => pure none
     else pure none
@@ -1262,17 +1257,26 @@ def evalFn (cfg : Cfg) (isSqrt : Bool) (like : Expr) (p : PNum) : M (Option Expr
         | .ninf => throw .valueError
         | .fin q => if q < 0 then throw .valueError
         | _ => pure ()
-        let r := FP.sqrt binary64 a
-        failIf (cfg.strict && !(match p.ext, extOfBits binary64 r with
-          | .fin q, .fin s => s * s == q && decide (s ≥ 0)
-          | _, _ => false)) (.inexact "eval")
-        return some (← mkConst cfg (mkFlt .py r) like)
+        return some (mkFlt .py (FP.sqrt binary64 a))
       else do
         -- `x * x` on the raw Python value
-        let r ← pyArith .mul p p
-        guardExact cfg "square" r.ext (match p.ext with | .fin q => some (q * q) | _ => none)
-        return some (← mkConst cfg r.toCVal like)
+        return some (← pyArith .mul p p).toCVal
     else pure none
+
+/-- strict-mode check of `_eval`: the result is the exact square root / square -/
+def evalExact (isSqrt : Bool) (x : ExtQ) (y : Option ExtQ) : Bool :=
+  match x, y with
+  | .fin q, some (.fin s) => if isSqrt then (s * s == q && decide (0 ≤ s)) else s == q * q
+  | _, _ => false
+
+/-- `_eval(like, "sqrt"|"square", value)` -/
+def evalFn (cfg : Cfg) (isSqrt : Bool) (like : Expr) (p : PNum) : M (Option Expr) := do
+  match (← evalVal isSqrt like p) with
+  | some rv => do
+    guardRep cfg p.toCVal
+    failIf (cfg.strict && !(rv.isReal && evalExact isSqrt p.ext rv.ext?)) (.inexact "eval")
+    return some (← mkConst cfg rv like)
+  | none => pure none
 
 def rSqrt (cfg : Cfg) (x : Expr) : M (Option Expr) :=
   match x with
